@@ -91,17 +91,15 @@ gen_case(const std::string &prop, bool big)
   c.cls = pick(0, 1);
   c.type = pick(0, 3);
   c.n = gen_n(prop, c.cls, big);
-  if (prop == "C06" && c.cls == 1 && chance(6)) {
-    // the approximate class needs no table: bin counts up to the limits of the integer type are admissible
-    // (n + 1 and min + n - 1 must be representable; 64-bit types are kept below 2^63 because the search positions are int64_t)
-    const int w = (c.type == 0 || c.type == 2) ? 32 : 64;
-    const uint64_t top = c.type == 0 ? 0xFFFFFFFDULL : c.type == 2 ? 0x7FFFFFFDULL : 0x7FFFFFFFFFFFFFFDULL;
-    switch (pick(0, 4)) {
+  if (prop == "C06" && c.cls == 1 && pick(0, big ? 3999 : 14999) == 0) {
+    // bin counts next to the limits of the 32-bit types (for the 64-bit types: around 2^30 .. 2^32). Rare, because the
+    // approximate class's constructor is O(n / 100): one such case costs seconds.
+    const uint64_t top = c.type == 2 ? 0x7FFFFFFDULL : 0xFFFFFFFDULL;
+    switch (pick(0, 3)) {
       case 0: c.n = top - pick64(0, 1000); break;
-      case 1: c.n = (1ULL << (w - 2)) - 500 + pick64(0, 1000); break;                       // around a quarter of the range
-      case 2: c.n = std::min<uint64_t>(top, (1ULL << (w - 1)) - 500 + pick64(0, 1000)); break;  // around half of the range
-      case 3: c.n = pick64(1ULL << 24, top); break;
-      default: c.n = std::min<uint64_t>(top, (1ULL << pick(20, w - 2)) + pick64(0, 3)); break;
+      case 1: c.n = (1ULL << 30) - 500 + pick64(0, 1000); break;
+      case 2: c.n = std::min<uint64_t>(top, (1ULL << 31) - 500 + pick64(0, 1000)); break;
+      default: c.n = pick64(1ULL << 28, top); break;
     }
   }
   // C19: now and then a large exact table (> 2^16 bins), shared between threads before anybody sampled it
